@@ -18,6 +18,8 @@ var c04Prefixes = []string{
 	"local s = [[ab]] ", "local s = [==[a]]b]==] ", "--[[c]] ", "--[==[ c ]==] ", "local s = [[l1\nl2]] ",
 	"local s = \"中文\" ", "local s = \"€\" ", "local s = \"😀\" ", "local s = \"𝄞x\" ", "local s = \"é\" ", "local s = \"жд\" ",
 	"local s = \"中é\" ", "t = { \"a\\tb\", [[x]] } ",
+	// near-valid text: characters that start no token, each ended by the space that follows
+	"local $ = 1 ", "@ ", "x = 1 ? ", "$$ `q` ", "local s = 1 !\t",
 }
 var c04LineEnds = []string{"\n", "\n", "\r\n", "\r", "\n\r"}
 
